@@ -35,10 +35,13 @@ CHECKS = {
                 "than max served, every slot back once connections ended (whatever the way each ended, panic included), full "
                 "capacity available again; partial: the semaphore and Drop-on-unwind are runtime behaviour. The check fills the real "
                 "server (max 1-3), verifies an extra connection is not served, ends served connections in six ways, verifies the "
-                "waiting one is then served, repeats, and verifies full capacity at the end.",
+                "waiting one is then served, repeats, and verifies full capacity at the end. Model-driven sessions: random client "
+                "behaviour (open, end a served connection in one of eight ways, give up while waiting) is run through the transition "
+                "system under an eager scheduler (proved to take only steps of the system) and on the real server; after every "
+                "action the connections served and the ones waiting must be the ones the model names.",
         "design_ref": "DESIGN.md section 8, C15",
         "note": "30-line LTS; timing-based observation (served = reply within 1.5-3 s, not served = none within 350 ms).",
-        "technique": "Coq invariant proof over an LTS + scenario runs against the live server",
+        "technique": "Coq invariant proof over an LTS + model-driven and scripted scenario runs against the live server",
     },
     "C16": {
         "text": "Machine-checked proof over a transition system of Server::run / Handler::run / Shutdown: replies become visible whole "
